@@ -343,6 +343,14 @@ impl Judge<'_> {
     /// seam recorded.
     pub fn judge_child_log(&self, obs: &XargsObs, rep: &mut Report) {
         let Some(clog) = &obs.child_log else { return };
+        if let Some(k) = obs.child_stdin.iter().position(|n| *n > 0) {
+            self.fail(
+                rep,
+                "child-can-read-the-argument-stream",
+                format!("child #{k} could read {} bytes from its standard input: it shares xargs' own input stream and can swallow arguments", obs.child_stdin[k]),
+            );
+            return;
+        }
         let spawns = obs.spawn_argvs();
         let seam: Vec<Vec<Vec<u8>>> = spawns.iter().map(|a| a[3.min(a.len())..].to_vec()).collect();
         let real: Vec<Vec<Vec<u8>>> = clog.iter().map(|(a, _)| a.clone()).collect();
